@@ -20,7 +20,22 @@ package main
 //     granted its vote for term t does not consider itself leader in t;
 //   - alone in its partition the node never becomes leader (it cannot get a strict majority), and
 //     a leader that cannot reach anybody answers client-facing probes as partitioned once the
-//     configured number of health checks has failed.
+//     configured number of health checks has failed;
+//   - stale-term leaders are ignored, also by the election timeout (two oracles):
+//     (a) bounded time. Cluster.run counts heartbeat ticks without a leader's health check and starts an election
+//     (term+1) at the vote_after-th one (clusterFailover.voteTimeout, set from the configuration's vote_after; the
+//     period is clusterFailover.heartBeat, overwritten here with exactly 100 ms, so there is no random part left).
+//     The harness counts the ticks that fall into every generated pause while the node is not the leader, and
+//     restarts its count at everything that may legitimately restart the node's timeout: an accepted health check
+//     (term >= own), a granted vote, an election of its own. Health checks of a lower term restart nothing. Every
+//     time the count reaches vote_after one more election is due; the number of elections the node has started
+//     (term increments during pauses: nothing else arrives then) must never be below the number due. One-sided: a
+//     node that stands earlier (the real loop does not restart its count when it grants a vote) is not judged.
+//     (b) metamorphic. A history that contained health checks of a lower term is executed again without them: every
+//     remaining event must leave the node in the same state (term, leader, ring) and get the same vote reply as in
+//     the first run - in particular the node starts every election in the same pause.
+//     Events never coincide with a tick: the history starts 500 us after the loop (ticks at k*100 ms, pauses are
+//     whole milliseconds), so the order of a tick and an injected message is never left to the scheduler.
 //
 // The multi-node simulator (c17sim_test.go) reaches these situations only through particular
 // loss patterns; here every one of them is one generated event away.
@@ -62,7 +77,14 @@ func c17NodeGen(rt *rapid.T) c17NodeCase {
 	c.Start = rapid.SampledFrom([]int{0, 1, 1, 2, -1, -1}).Draw(rt, "start")
 	n := rapid.IntRange(1, 14).Draw(rt, "nev")
 	for i := 0; i < n; i++ {
-		switch k := rapid.IntRange(0, 99).Draw(rt, "kind"); {
+		switch k := rapid.IntRange(0, 109).Draw(rt, "kind"); {
+		case k >= 100:
+			// a stale leader that is still running: its health checks keep coming while the node's election timeout runs
+			peer := rapid.IntRange(1, c.N-1).Draw(rt, "from")
+			for j, m := 0, rapid.IntRange(2, 5).Draw(rt, "burst"); j < m; j++ {
+				c.Ev = append(c.Ev, c17NodeEv{K: "health", From: peer, DT: rapid.SampledFrom([]int{-1, -1, -2}).Draw(rt, "dt")},
+					c17NodeEv{K: "adv", Ms: rapid.SampledFrom([]int{30, 90, 90, 120}).Draw(rt, "ms")})
+			}
 		case k < 45:
 			c.Ev = append(c.Ev, c17NodeEv{K: "health", From: rapid.IntRange(1, c.N-1).Draw(rt, "from"),
 				DT: rapid.SampledFrom([]int{0, 0, 0, 1, 1, 2, 3, -1, -1, -2}).Draw(rt, "dt"), List: rapid.SampledFrom([]int{0, 0, 0, 1, 2}).Draw(rt, "list")})
@@ -82,174 +104,309 @@ type c17NodeSnap struct {
 	sig    string
 }
 
-func c17NodeExec(t *testing.T) func(c17NodeCase) kit.Outcome {
-	return func(cs c17NodeCase) kit.Outcome {
-		o := kit.Outcome{}
-		var viol *kit.Viol
-		classes := map[string]bool{}
-		synctest.Test(t, func(t *testing.T) {
-			saveHub, saveCl := globals.hub, globals.cluster
-			globals.hub = &Hub{topics: &sync.Map{}, rehash: make(chan bool, 1<<12)}
-			globals.cluster = nil
-			defer func() { globals.hub, globals.cluster = saveHub, saveCl }()
+// c17NodeObs is what one event left behind: the node's state after it and, for a vote request, the reply.
+type c17NodeObs struct {
+	ev    int
+	snap  c17NodeSnap
+	voted bool
+	reply ClusterVoteResponse
+}
 
-			c := &Cluster{thisNodeName: "a", fingerprint: 1, nodes: map[string]*ClusterNode{}}
-			for j := 1; j < cs.N; j++ {
-				c.nodes[c17Names[j]] = &ClusterNode{name: c17Names[j], address: "c17-no-network", done: make(chan bool, 1), msess: map[string]struct{}{}}
-			}
-			if !c.failoverInit(&clusterFailoverConfig{Enabled: true, Heartbeat: 100, VoteAfter: cs.VoteAfter, NodeFailAfter: cs.FailAfter}) {
-				viol = kit.V("harness", "failoverInit refused the configuration")
-				return
-			}
-			c.fo.heartBeat = 100 * time.Millisecond
-			c.fo.term = cs.Term
-			switch {
-			case cs.Start > 0 && cs.Start < cs.N:
-				c.fo.leader = c17Names[cs.Start]
-			case cs.Start < 0:
-				c.fo.leader = "a"
-			}
-			snap := func() c17NodeSnap { return c17NodeSnap{c.fo.term, c.fo.leader, c.ring.Signature()} }
-			exited := make(chan struct{})
-			go func() { c.run(); close(exited) }()
-			synctest.Wait()
+type c17NodeResult struct {
+	viol    *kit.Viol
+	classes map[string]bool
+	obs     []c17NodeObs // one per executed event
+	stale   map[int]bool // indexes of the health checks whose term was below the node's
+}
 
-			voted := map[int]string{} // term -> whom this node's vote of that term went to
-			if cs.Start < 0 {
-				voted[cs.Term] = "a"
+// classes that refine a situation (not counted as situations of their own by the non-triviality rule)
+var c17NodeDetail = map[string]bool{"rerun-without-stale-checks": true, "stale-health-check-while-timeout-runs": true, "stood-for-election-despite-stale-checks": true}
+
+const c17NodeHB = 100 // ms: the heartbeat the loop under test is given
+
+// c17NodeRun executes the history in a fresh bubble, leaving out the events listed in skip.
+func c17NodeRun(t *testing.T, cs c17NodeCase, skip map[int]bool) (res c17NodeResult) {
+	res.classes = map[string]bool{}
+	res.stale = map[int]bool{}
+	classes := res.classes
+	var viol *kit.Viol
+	defer func() { res.viol = viol }()
+	synctest.Test(t, func(t *testing.T) {
+		saveHub, saveCl := globals.hub, globals.cluster
+		globals.hub = &Hub{topics: &sync.Map{}, rehash: make(chan bool, 1<<12)}
+		globals.cluster = nil
+		defer func() { globals.hub, globals.cluster = saveHub, saveCl }()
+
+		c := &Cluster{thisNodeName: "a", fingerprint: 1, nodes: map[string]*ClusterNode{}}
+		for j := 1; j < cs.N; j++ {
+			c.nodes[c17Names[j]] = &ClusterNode{name: c17Names[j], address: "c17-no-network", done: make(chan bool, 1), msess: map[string]struct{}{}}
+		}
+		if !c.failoverInit(&clusterFailoverConfig{Enabled: true, Heartbeat: c17NodeHB, VoteAfter: cs.VoteAfter, NodeFailAfter: cs.FailAfter}) {
+			viol = kit.V("harness", "failoverInit refused the configuration")
+			return
+		}
+		c.fo.heartBeat = c17NodeHB * time.Millisecond
+		c.fo.term = cs.Term
+		switch {
+		case cs.Start > 0 && cs.Start < cs.N:
+			c.fo.leader = c17Names[cs.Start]
+		case cs.Start < 0:
+			c.fo.leader = "a"
+		}
+		// the configuration the loop really uses (read, not assumed)
+		voteAfter := c.fo.voteTimeout
+		hbMs := int(c.fo.heartBeat / time.Millisecond)
+		snap := func() c17NodeSnap { return c17NodeSnap{c.fo.term, c.fo.leader, c.ring.Signature()} }
+		exited := make(chan struct{})
+		go func() { c.run(); close(exited) }()
+		synctest.Wait()
+		// ticks fire k*hbMs after this point; every event happens at a whole millisecond + 500 us
+		time.Sleep(500 * time.Microsecond)
+		synctest.Wait()
+
+		voted := map[int]string{} // term -> whom this node's vote of that term went to
+		if cs.Start < 0 {
+			voted[cs.Term] = "a"
+		}
+		fail := func(sig, f string, a ...any) {
+			if viol == nil {
+				viol = kit.V(sig, f, a...)
 			}
-			fail := func(sig, f string, a ...any) {
-				if viol == nil {
-					viol = kit.V(sig, f, a...)
+		}
+		all := []string{"a"}
+		for j := 1; j < cs.N; j++ {
+			all = append(all, c17Names[j])
+		}
+		// bounded-time oracle (a)
+		elapsed := 0    // ms of generated pauses so far
+		quiet := 0      // heartbeat ticks since the node's election timeout was last (legitimately) restarted
+		due := 0        // elections that were due so far
+		started := 0    // elections the node started so far
+		staleSince := 0 // stale health checks since the timeout was last restarted (for the message)
+		for i, ev := range cs.Ev {
+			if viol != nil {
+				break
+			}
+			if skip[i] {
+				continue
+			}
+			pre := snap()
+			from := c17Names[1+(ev.From-1+cs.N-1)%(cs.N-1)]
+			ob := c17NodeObs{ev: i}
+			switch ev.K {
+			case "adv":
+				time.Sleep(time.Duration(ev.Ms) * time.Millisecond)
+				synctest.Wait()
+				post := snap()
+				ticks := (elapsed+ev.Ms)/hbMs - elapsed/hbMs
+				elapsed += ev.Ms
+				if post.term > pre.term {
+					classes["stood-for-election"] = true
+					for tm := pre.term + 1; tm <= post.term; tm++ {
+						if who, ok := voted[tm]; ok && who != "a" {
+							fail("two-votes-in-one-term", "event %d: the node stood for election in term %d after granting its vote of that term to %s", i, tm, who)
+						}
+						voted[tm] = "a"
+					}
 				}
-			}
-			all := []string{"a"}
-			for j := 1; j < cs.N; j++ {
-				all = append(all, c17Names[j])
-			}
-			for i, ev := range cs.Ev {
+				if pre.leader != "a" {
+					// nothing reaches the node during a pause: it stays a non-leader and every tick counts
+					started += post.term - pre.term
+					for k := 0; k < ticks; k++ {
+						quiet++
+						if quiet >= voteAfter {
+							due++
+							quiet = 0
+						}
+					}
+					if started < due {
+						fail("election-overdue", "event %d: the node (term %d, leader %q, not the leader) has seen %d heartbeat periods of %d ms pass without a health check of its term or a later one, vote_after is %d: "+
+							"%d election(s) were due by now, it started %d (%d health check(s) of a LOWER term arrived since its timeout was last restarted: a stale leader holds off the election)",
+							i, post.term, post.leader, quiet+voteAfter*(due-started), hbMs, voteAfter, due, started, staleSince)
+					}
+					if post.term > pre.term {
+						// an election of its own restarts the node's timeout; the harness count restarts with it only if
+						// the node is not ahead of it (one-sided oracle)
+						if started > due {
+							started, due, quiet = 0, 0, 0
+						}
+						if staleSince > 0 {
+							classes["stood-for-election-despite-stale-checks"] = true
+						}
+						staleSince = 0
+					}
+				}
+			case "health":
+				term := pre.term + ev.DT
+				if term < 0 {
+					term = 0
+				}
+				nodes := append([]string(nil), all...)
+				if ev.List > 0 && ev.List < cs.N {
+					drop := c17Names[ev.List]
+					nodes = nodes[:0]
+					for _, nm := range all {
+						if nm != drop {
+							nodes = append(nodes, nm)
+						}
+					}
+				}
+				h := &ClusterHealth{Leader: from, Term: term, Nodes: nodes, Signature: c17SigOf(nodes)}
+				c.fo.healthCheck <- h
+				synctest.Wait()
+				post := snap()
+				if term < pre.term {
+					classes["stale-health-check"] = true
+					res.stale[i] = true
+					if pre.leader != "a" && quiet > 0 {
+						classes["stale-health-check-while-timeout-runs"] = true
+					}
+					staleSince++
+					if post != pre {
+						fail("stale-health-check-changed-state", "event %d: node (term %d, leader %q, ring %s) received a health check of term %d from %s and now has term %d, leader %q, ring %s",
+							i, pre.term, pre.leader, pre.sig, term, from, post.term, post.leader, post.sig)
+					}
+					break
+				}
+				switch {
+				case term > pre.term && from == pre.leader:
+					classes["same-leader-higher-term"] = true
+				case term > pre.term:
+					classes["new-leader-higher-term"] = true
+				case from != pre.leader:
+					classes["other-leader-same-term"] = true
+				default:
+					classes["heartbeat"] = true
+				}
+				if post.term != term || post.leader != from {
+					fail("health-check-leader-not-adopted", "event %d: node (term %d, leader %q) accepted a health check of term %d from %s and now has term %d, leader %q",
+						i, pre.term, pre.leader, term, from, post.term, post.leader)
+				}
+				// a current leader is alive: the timeout restarts
+				quiet, due, started, staleSince = 0, 0, 0, 0
+			case "vote":
+				term := pre.term + ev.DT
+				if term < 0 {
+					term = 0
+				}
+				resp := make(chan ClusterVoteResponse, 1)
+				c.fo.electionVote <- &ClusterVote{req: &ClusterVoteRequest{Node: from, Term: term}, resp: resp}
+				synctest.Wait()
+				post := snap()
+				var r ClusterVoteResponse
+				select {
+				case r = <-resp:
+				default:
+					fail("vote-unanswered", "event %d: vote request of term %d from %s got no answer", i, term, from)
+				}
 				if viol != nil {
 					break
 				}
-				pre := snap()
-				from := c17Names[1+(ev.From-1+cs.N-1)%(cs.N-1)]
-				switch ev.K {
-				case "adv":
-					time.Sleep(time.Duration(ev.Ms) * time.Millisecond)
-					synctest.Wait()
-					post := snap()
-					if post.term > pre.term {
-						classes["stood-for-election"] = true
-						for tm := pre.term + 1; tm <= post.term; tm++ {
-							if who, ok := voted[tm]; ok && who != "a" {
-								fail("two-votes-in-one-term", "event %d: the node stood for election in term %d after granting its vote of that term to %s", i, tm, who)
-							}
-							voted[tm] = "a"
-						}
-					}
-				case "health":
-					term := pre.term + ev.DT
-					if term < 0 {
-						term = 0
-					}
-					nodes := append([]string(nil), all...)
-					if ev.List > 0 && ev.List < cs.N {
-						drop := c17Names[ev.List]
-						nodes = nodes[:0]
-						for _, nm := range all {
-							if nm != drop {
-								nodes = append(nodes, nm)
-							}
-						}
-					}
-					h := &ClusterHealth{Leader: from, Term: term, Nodes: nodes, Signature: c17SigOf(nodes)}
-					c.fo.healthCheck <- h
-					synctest.Wait()
-					post := snap()
-					if term < pre.term {
-						classes["stale-health-check"] = true
-						if post != pre {
-							fail("stale-health-check-changed-state", "event %d: node (term %d, leader %q, ring %s) received a health check of term %d from %s and now has term %d, leader %q, ring %s",
-								i, pre.term, pre.leader, pre.sig, term, from, post.term, post.leader, post.sig)
-						}
-						break
-					}
-					switch {
-					case term > pre.term && from == pre.leader:
-						classes["same-leader-higher-term"] = true
-					case term > pre.term:
-						classes["new-leader-higher-term"] = true
-					case from != pre.leader:
-						classes["other-leader-same-term"] = true
-					default:
-						classes["heartbeat"] = true
-					}
-					if post.term != term || post.leader != from {
-						fail("health-check-leader-not-adopted", "event %d: node (term %d, leader %q) accepted a health check of term %d from %s and now has term %d, leader %q",
-							i, pre.term, pre.leader, term, from, post.term, post.leader)
-					}
-				case "vote":
-					term := pre.term + ev.DT
-					if term < 0 {
-						term = 0
-					}
-					resp := make(chan ClusterVoteResponse, 1)
-					c.fo.electionVote <- &ClusterVote{req: &ClusterVoteRequest{Node: from, Term: term}, resp: resp}
-					synctest.Wait()
-					post := snap()
-					var r ClusterVoteResponse
-					select {
-					case r = <-resp:
-					default:
-						fail("vote-unanswered", "event %d: vote request of term %d from %s got no answer", i, term, from)
-					}
-					if viol != nil {
-						break
-					}
-					if r.Term != post.term {
-						fail("vote-reply-term", "event %d: the reply to a vote request carries term %d, the node's term is %d", i, r.Term, post.term)
-					}
-					if r.Result {
-						classes["vote-granted"] = true
-						if term <= pre.term {
-							fail("vote-granted-for-old-term", "event %d: the node (term %d) granted its vote for term %d to %s", i, pre.term, term, from)
-						}
-						if who, ok := voted[term]; ok && who != from {
-							fail("two-votes-in-one-term", "event %d: the node granted its vote of term %d to %s after giving it to %s", i, term, from, who)
-						}
-						voted[term] = from
-						if post.term != term {
-							fail("vote-granted-term-not-adopted", "event %d: granted a vote for term %d, the node's term is %d", i, term, post.term)
-						}
-						if post.leader == "a" {
-							fail("leader-after-granting-vote", "event %d: the node granted its vote for term %d to %s and still considers itself leader in that term: two leaders in one term once %s wins", i, term, from, from)
-						}
-						if pre.leader == "a" {
-							classes["leader-granted-vote"] = true
-						}
-					} else {
-						classes["vote-refused"] = true
-						if post != pre {
-							fail("refused-vote-changed-state", "event %d: a refused vote request (term %d from %s) changed the node from %+v to %+v", i, term, from, pre, post)
-						}
-					}
+				ob.voted, ob.reply = true, r
+				if r.Term != post.term {
+					fail("vote-reply-term", "event %d: the reply to a vote request carries term %d, the node's term is %d", i, r.Term, post.term)
 				}
-				post := snap()
-				if post.term < pre.term {
-					fail("term-decreased", "event %d (%s): the node's term went from %d to %d", i, ev.K, pre.term, post.term)
-				}
-				if post.leader == "a" && pre.leader != "a" {
-					fail("leader-without-majority", "event %d (%s): the node, which can reach no other node, considers itself leader of term %d", i, ev.K, post.term)
+				if r.Result {
+					classes["vote-granted"] = true
+					if term <= pre.term {
+						fail("vote-granted-for-old-term", "event %d: the node (term %d) granted its vote for term %d to %s", i, pre.term, term, from)
+					}
+					if who, ok := voted[term]; ok && who != from {
+						fail("two-votes-in-one-term", "event %d: the node granted its vote of term %d to %s after giving it to %s", i, term, from, who)
+					}
+					voted[term] = from
+					if post.term != term {
+						fail("vote-granted-term-not-adopted", "event %d: granted a vote for term %d, the node's term is %d", i, term, post.term)
+					}
+					if post.leader == "a" {
+						fail("leader-after-granting-vote", "event %d: the node granted its vote for term %d to %s and still considers itself leader in that term: two leaders in one term once %s wins", i, term, from, from)
+					}
+					if pre.leader == "a" {
+						classes["leader-granted-vote"] = true
+					}
+					// a node may restart its timeout when it grants a vote (the real loop does not): not held against it
+					quiet, due, started, staleSince = 0, 0, 0, 0
+				} else {
+					classes["vote-refused"] = true
+					if post != pre {
+						fail("refused-vote-changed-state", "event %d: a refused vote request (term %d from %s) changed the node from %+v to %+v", i, term, from, pre, post)
+					}
 				}
 			}
-			c.fo.done <- true
-			<-exited
-		})
+			post := snap()
+			ob.snap = post
+			res.obs = append(res.obs, ob)
+			if post.term < pre.term {
+				fail("term-decreased", "event %d (%s): the node's term went from %d to %d", i, ev.K, pre.term, post.term)
+			}
+			if post.leader == "a" && pre.leader != "a" {
+				fail("leader-without-majority", "event %d (%s): the node, which can reach no other node, considers itself leader of term %d", i, ev.K, post.term)
+			}
+		}
+		c.fo.done <- true
+		<-exited
+	})
+	return
+}
+
+func c17NodeExec(t *testing.T) func(c17NodeCase) kit.Outcome {
+	return func(cs c17NodeCase) kit.Outcome {
+		o := kit.Outcome{}
+		res := c17NodeRun(t, cs, nil)
+		viol, classes := res.viol, res.classes
+		if viol == nil && len(res.stale) > 0 {
+			// metamorphic oracle (b): the same history without the health checks of a lower term
+			classes["rerun-without-stale-checks"] = true
+			ref := c17NodeRun(t, cs, res.stale)
+			var kept []c17NodeObs
+			for _, ob := range res.obs {
+				if !res.stale[ob.ev] {
+					kept = append(kept, ob)
+				}
+			}
+			switch {
+			case ref.viol != nil:
+				// the reduced history is a history of its own right
+				viol = kit.V(ref.viol.Sig, "(history without its stale health checks) %s", ref.viol.Msg)
+			case len(ref.obs) != len(kept):
+				viol = kit.V("harness", "the run without stale checks executed %d events, expected %d", len(ref.obs), len(kept))
+			default:
+				for k := range kept {
+					with, without := kept[k], ref.obs[k]
+					if with.snap == without.snap && with.voted == without.voted && with.reply == without.reply {
+						continue
+					}
+					var idx []int
+					for i := range cs.Ev {
+						if res.stale[i] && i < with.ev {
+							idx = append(idx, i)
+						}
+					}
+					ev := cs.Ev[with.ev]
+					what := fmt.Sprintf("%s", ev.K)
+					if ev.K == "adv" {
+						what = fmt.Sprintf("a pause of %d ms", ev.Ms)
+					}
+					msg := fmt.Sprintf("after event %d (%s) the node has term %d, leader %q, ring %s", with.ev, what, with.snap.term, with.snap.leader, with.snap.sig)
+					msg += fmt.Sprintf("; in the same history without the health checks of a lower term (events %v) it has term %d, leader %q, ring %s", idx, without.snap.term, without.snap.leader, without.snap.sig)
+					if with.voted {
+						msg += fmt.Sprintf("; vote reply %+v against %+v", with.reply, without.reply)
+					}
+					msg += ": health checks of a stale leader are not ignored, they change when the node stands for election (vote_after " + fmt.Sprint(cs.VoteAfter) + ")"
+					viol = kit.V("stale-health-check-changed-later-behaviour", "%s", msg)
+					break
+				}
+			}
+		}
+		situations := 0
 		for k := range classes {
 			o.Classes = append(o.Classes, k)
+			if !c17NodeDetail[k] {
+				situations++
+			}
 		}
 		sort.Strings(o.Classes)
-		o.NonTrivial = len(classes) >= 3
+		o.NonTrivial = situations >= 3
 		o.Viol = viol
 		return o
 	}
